@@ -1077,7 +1077,9 @@ class Server:
                         self.available_data_ports.put_nowait((0, port))
                 if connection.future.data_connection.done():
                     connection.data_connection.close()
-                stream.close()
+                # a peer which does not read its replies does not keep the
+                # socket
+                stream.give_up()
             if connection.acquired:
                 self.available_connections.release()
             if connection.future.user.done():
